@@ -14,6 +14,7 @@
   source go back to byte offsets, `sanitize_eq_spec` and everything that rests on it stop compiling.
 -/
 import SlicecVerif.Lemmas.Comment
+import SlicecVerif.Lemmas.CommentRoundtrip
 import SlicecVerif.Model.CommentDocs
 
 namespace Slicec.C16
@@ -308,65 +309,132 @@ theorem link_target_is_search_result (t : Table) (elemKey id : String) (n : Node
 /-- an unresolvable link costs one `BrokenDocLink` lint (a lint: Warning) and nothing else -/
 theorem broken_link_is_warning : lintLevel .brokenDocLink = "W" ∧ lintLevel .incorrectDocComment = "W" := ⟨rfl, rfl⟩
 
-/-! ### round trip -/
+/-! ### round trip
 
-/-- what the renderer can write so that it reads back *exactly* (same text segmentation): texts are non-empty, contain no
-    `{` and no line break, the first text of a line starts with a non-blank character other than `@`; a message is a
-    sequence of such lines each closed by the `"\n"` text; some non-empty line of every group of lines that is stripped
-    together (overview; continuation lines of a tag) has no indentation of its own; identifiers are what the lexer accepts. -/
-def plainText (s : Str) : Bool := !s.isEmpty && s.all (fun c => c != '{' && c != '\n')
+  `Renderable c` (Lemmas/CommentRoundtrip.lean, a decidable `Bool`) says what the renderer `renderComment` can write so that it
+  reads back:
+  * every message (overview, tag messages) is a sequence of lines, each closed by the `"\n"` text; an overview is not empty;
+  * in every line a text is not empty, contains no `{` (and no line break: a `///` line cannot), and is not followed by
+    another text (the two would come back as one); a link's target is a scoped identifier `::`? id (`::` id)* without blanks
+    (`scopedOK`), `@param` / `@returns` identifiers are identifiers (`idOK`), `@see` targets are scoped identifiers;
+  * an overview or continuation line may start with a link; if it starts with a text, that text has a first non-blank
+    character and it is not `@` (own indentation made of *any* whitespace characters is allowed);
+  * the first line of a tag's message — the renderer writes it on the tag's own line, right after the `:` — does not start
+    with a blank and not with `:` (**added**; the two `example`s after the theorems show that each is necessary);
+  * unless they are all empty, one of the overview lines (and one of the continuation lines of each tag) has no indentation
+    of its own: it starts with a link or with a non-blank character.
+  Compared with the definition this file had before: the two conditions on the inline line were missing (so the former
+  `comment_roundtrip_full` was false as stated), lines that start with a link were excluded, own indentation had to be made
+  of U+0020 only, and `scopedOK` was phrased through the lexer (same set of strings). -/
 
-def lineOK : List Comp → Bool
-  | [] => true
-  | .text s :: r => plainText s && (match s.dropWhile (· == ' ') with | c :: _ => !isWsC c && c != '@' | [] => false) &&
-      r.all (fun c => match c with | .text t => plainText t | .link _ => true) &&
-      -- two texts next to each other would be read back as one
-      ((Comp.text s :: r).zip r).all (fun p => match p with | (.text _, .text _) => false | _ => true)
-  | .link _ :: _ => false      -- written after an indentation, a line that starts with a link reads back with an empty text in front of the link
+/-- **Round trip, exact form.** Every renderable comment `c` — overview lines with inline `{@link X}` components at the
+    start, in the middle or at the end of a line, empty lines, lines with indentation of their own, `@param id`,
+    `@returns [id]` and `@see X` tags, tag messages with an inline first line and continuation lines — written by
+    `renderComment` after *any* indentation `ind` made of whitespace characters (any of the 25 code points, any mixture of
+    UTF-8 widths) is accepted by the comment parser as it is (the code's lexer, grammar, `sanitize_message_lines` and
+    `construct_section_message`), and the result is `c.readBack ind`: the comment `c` itself, except that an overview or
+    continuation line that *starts with a link* comes back with an **empty text component in front of the link** when `ind`
+    is not empty (the lexer makes the indentation a text of its own, the sanitizer strips all of it and keeps the component;
+    the real parser does the same — correspondence family `ws-link` — and no character of the comment is lost or added). -/
+theorem comment_roundtrip_readback (c : DocC) (ind : Str) (hind : ind.all isWsC = true) (hr : Renderable c = true)
+    (hne : c.overview.isSome ∨ c.params ≠ [] ∨ c.returns ≠ [] ∨ c.see ≠ []) :
+    parseComment (renderComment c ind) = .ok (c.readBack ind) :=
+  parseCommentG_render sanitizeMessageLines sanitize_eq_spec c ind hind hr hne
 
-def idOK (s : Str) : Bool :=
-  match s with
-  | c :: r => c.isAlpha && r.all isIdCharC
-  | [] => false
+/-- **Round trip (the full statement).** For every renderable comment `c` and every whitespace indentation `ind`, the parser
+    accepts `renderComment c ind` and returns a comment `c'` such that
+    * `c'` and `c` are equal **up to the segmentation of texts**: `c'.merged = c.merged`, where `DocC.merged` applies the
+      canonical form `mergeMsg` (adjacent texts concatenated, empty texts dropped) to the overview and to every tag message and
+      leaves identifiers, `@see` targets, links and their order alone. `mergeMsg`-equality — not literal equality — is what
+      holds in general, because of the empty text in front of a link that starts an indented line (`comment_roundtrip_readback`
+      gives `c'` exactly);
+    * `c' = c` **literally** when nothing was written in front of a line-initial link: `ind` is empty, or no overview line and
+      no continuation line starts with a link (`noLinkLedLine`; links in the middle or at the end of a line, and a link at the
+      start of a tag's inline message, are unrestricted). -/
+theorem comment_roundtrip (c : DocC) (ind : Str) (hind : ind.all isWsC = true) (hr : Renderable c = true)
+    (hne : c.overview.isSome ∨ c.params ≠ [] ∨ c.returns ≠ [] ∨ c.see ≠ []) :
+    ∃ c', parseComment (renderComment c ind) = .ok c' ∧ c'.merged = c.merged ∧
+      ((ind = [] ∨ noLinkLedLine c = true) → c' = c) :=
+  ⟨c.readBack ind, comment_roundtrip_readback c ind hind hr hne, readBack_merged c ind hr, readBack_eq c ind hr⟩
 
-def scopedOK (s : Str) : Bool :=
-  match parseScopedId ((lexLine (s.length + 2) .blockTag s).toks.dropLast) with
-  | some (id, []) => id == s
-  | _ => false
+/-- the literal corollary: without an indented line that starts with a link, `parse (render c) = c` -/
+theorem comment_roundtrip_literal (c : DocC) (ind : Str) (hind : ind.all isWsC = true) (hr : Renderable c = true)
+    (hne : c.overview.isSome ∨ c.params ≠ [] ∨ c.returns ≠ [] ∨ c.see ≠ []) (h : ind = [] ∨ noLinkLedLine c = true) :
+    parseComment (renderComment c ind) = .ok c := by
+  rw [comment_roundtrip_readback c ind hind hr hne, readBack_eq c ind hr h]
 
-def linksOK (m : Msg) : Bool := m.all fun c => match c with | .link id => scopedOK id | .text _ => true
+/-- **What the lexer makes of a rendered comment**: no lexer error, and the token stream is, line by line, the one written —
+    `renderToks`: per overview / continuation line the indentation joined to the first text (a text of its own in front of a
+    link), `{` `link` scoped-identifier tokens `}` per link, one `Newline`; per tag line the keyword, the identifier tokens,
+    and either `Newline` or `:` and the inline message. (Per kind of line: `lexOneLine_line`, `lexOneLine_param`,
+    `lexOneLine_returns_none/_some`, `lexOneLine_see` in Lemmas/CommentRoundtrip.lean.) -/
+theorem rendered_tokens (c : DocC) (ind : Str) (hind : ind.all isWsC = true) (hr : Renderable c = true) :
+    lexComment (renderComment c ind) = ⟨renderToks c ind, none⟩ :=
+  lexComment_render c ind hind hr
 
-/-- the lines are properly terminated, each is writable, and their common indentation is 0 -/
-def groupOK (m : Msg) : Bool :=
-  (m.getLast? == some nl || m.isEmpty) && (splitLines m).all lineOK && linksOK m &&
-  ((splitLines m).all List.isEmpty ||
-   (splitLines m).any (fun l => match l with | .text (c :: _) :: _ => !isWsC c | _ => false))
+/-- non-vacuity: links at the start, in the middle and at the end of overview lines, an empty line, a line with indentation of
+    its own, all three tag kinds, inline messages (one starting with a link, one with `@`) and continuation lines (one starting
+    with a link). Written after three spaces and after a mixed-width indentation it reads back as `readBack` says — which is
+    not `c` literally (two lines start with a link) but equal to it after `mergeMsg`; written without indentation it reads
+    back literally. -/
+example :
+    let ov : Msg := [.text "See ".toList, .link "A::B".toList, .text " now".toList, nl,
+                     .link "::M::S".toList, .text " starts".toList, nl, nl,
+                     .text "  ends with ".toList, .link "X".toList, nl]
+    let pm : Msg := [.text "the x ".toList, .link "T".toList, nl, .text "cont".toList, nl, .link "U".toList, .text " led".toList, nl]
+    let c : DocC :=
+      { overview := some ov, params := [("x".toList, pm)],
+        returns := [(none, []), (some "r".toList, [nl, .text "later".toList, nl]), (none, [.link "V".toList, nl]),
+                    (none, [.text "@x".toList, nl])],
+        see := ["::M::S".toList, "K".toList] }
+    Renderable c = true ∧ noLinkLedLine c = false ∧
+    parseComment (renderComment c (spaces 3)) = .ok (c.readBack (spaces 3)) ∧ c.readBack (spaces 3) ≠ c ∧
+    (c.readBack (spaces 3)).merged = c.merged ∧
+    parseComment (renderComment c [' ', '　', '\u0085']) = .ok (c.readBack [' ', '　', '\u0085']) ∧
+    parseComment (renderComment c []) = .ok c := by decide
 
-def sectionOK (m : Msg) : Bool :=
-  match splitLines m with
-  | [] => m.isEmpty
-  | [] :: _ => groupOK m
-  | (_ :: _) :: _ => groupOK m && groupOK (m.dropWhile (· != nl) |>.drop 1)
+/-- non-vacuity of the literal case: links in the middle and at the end, all three tag kinds, no line-initial link -/
+example :
+    let c : DocC :=
+      { overview := some [.text "See ".toList, .link "A::B".toList, .text " now".toList, nl, nl, .text "  more ".toList, .link "C".toList, nl],
+        params := [("x".toList, [.text "the x".toList, nl, .text "cont".toList, nl])],
+        returns := [(none, []), (some "r".toList, [nl, .text "later".toList, nl])],
+        see := ["::M::S".toList] }
+    Renderable c = true ∧ noLinkLedLine c = true ∧ parseComment (renderComment c (spaces 3)) = .ok c ∧
+      parseComment (renderComment c [' ', '　', '\u0085']) = .ok c := by decide
 
-def Renderable (c : DocC) : Bool :=
-  (match c.overview with | none => true | some m => groupOK m && !m.isEmpty) &&
-  c.params.all (fun x => idOK x.1 && sectionOK x.2) &&
-  c.returns.all (fun x => (match x.1 with | none => true | some i => idOK i) && sectionOK x.2) &&
-  c.see.all scopedOK
+/-- **necessity of the first added condition**: an inline message that starts with `:` is written `@param x::y`, which the
+    lexer reads as `@param x` `::` `y` — the comment is rejected -/
+example :
+    let c : DocC := { overview := none, params := [("x".toList, [.text ":y".toList, nl])], returns := [], see := [] }
+    Renderable c = false ∧ renderComment c [] = ["@param x::y".toList] ∧
+    parseComment (renderComment c []) = .err (.malformed none) := by decide
 
-/-- **Round trip, full statement** (not proved in general; exercised by the correspondence families, whose comments are
-    rendered from pieces and compared with the real parser): every renderable comment, written after any indentation made
-    of whitespace characters (any of the 25 code points), reads back as itself. -/
-def comment_roundtrip_full : Prop :=
-  ∀ (c : DocC) (ind : Str), ind.all isWsC = true → Renderable c = true →
-    (c.overview.isSome ∨ c.params ≠ [] ∨ c.returns ≠ [] ∨ c.see ≠ []) →
-    parseComment (renderComment c ind) = .ok c
+/-- **necessity of the second added condition**: an inline message that starts with a blank is written `@param x: y`, and
+    `construct_section_message` trims the inline message — it reads back as `y` -/
+example :
+    let c : DocC := { overview := none, params := [("x".toList, [.text " y".toList, nl])], returns := [], see := [] }
+    Renderable c = false ∧ renderComment c [] = ["@param x: y".toList] ∧
+    parseComment (renderComment c []) = .ok { c with params := [("x".toList, [.text "y".toList, nl])] } := by decide
 
-/-- **Round trip, proved fragment**: overview comments made of plain text lines (no links, no tags; empty lines and lines
+/-- the conditions kept from before are necessary too: two adjacent texts come back as one; a text with `{` is split; a line
+    whose first non-blank character is `@` starts a block tag; without a flush line the common indentation is not `ind` -/
+example :
+    parseComment (renderComment { overview := some [.text ['a'], .text ['b'], nl], params := [], returns := [], see := [] } [])
+      = .ok { overview := some [.text ['a', 'b'], nl], params := [], returns := [], see := [] } ∧
+    parseComment (renderComment { overview := some [.text ['a', '{', 'b'], nl], params := [], returns := [], see := [] } [])
+      = .ok { overview := some [.text ['a'], .text ['{', 'b'], nl], params := [], returns := [], see := [] } ∧
+    parseComment (renderComment { overview := some [.text ['@', 'a'], nl], params := [], returns := [], see := [] } [])
+      = .err (.malformed (some (.unknownTag ['a']))) ∧
+    parseComment (renderComment { overview := some [.text [' ', 'a'], nl], params := [], returns := [], see := [] } [])
+      = .ok { overview := some [.text ['a'], nl], params := [], returns := [], see := [] } := by decide
+
+/-- **Round trip, plain lines** (the special case proved first, kept with its own structured statement; the texts may even
+    contain line-break characters here): overview comments made of plain text lines (no links, no tags; empty lines and lines
     with additional indentation of their own allowed, some non-empty line having none), written after *any* indentation
     `ind` made of whitespace characters — ASCII or not, of any mixture of UTF-8 widths: the parser returns exactly the
     comment that was rendered — the written lines minus their common indentation, one `"\n"` text per line. -/
-theorem comment_roundtrip_partial (ls : List PLine) (ind : Str) (hind : ind.all isWsC = true) (hne : ls ≠ []) (hwf : ∀ l ∈ ls, l.WF)
+theorem comment_roundtrip_plain (ls : List PLine) (ind : Str) (hind : ind.all isWsC = true) (hne : ls ≠ []) (hwf : ∀ l ∈ ls, l.WF)
     (hzero : ∀ j b, some (j, b) ∈ ls → ∃ b0, some (0, b0) ∈ ls) :
     parseComment (renderComment (plainDoc ls) ind) = .ok (plainDoc ls) := by
   rw [render_plainDoc ls ind hwf]
@@ -419,16 +487,6 @@ example : parseComment (renderComment (plainDoc [some (0, "Hello, world".toList)
 example : parseComment (renderComment (plainDoc [some (0, "Hello, world".toList), none, some (2, "x: y".toList)]) ['\t', '\u00A0', '\u3000'])
     = .ok (plainDoc [some (0, "Hello, world".toList), none, some (2, "x: y".toList)]) := by decide
 
-/-- the full statement is not vacuous either: a renderable comment with links and all three kinds of tags reads back, after
-    ASCII and after mixed-width indentation -/
-example :
-    let c : DocC := { overview := some [.text "See ".toList, .link "A::B".toList, .text " now".toList, nl, nl, .text "  more".toList, nl],
-                      params := [("x".toList, [.text "the x".toList, nl, .text "cont".toList, nl])],
-                      returns := [(none, []), (some "r".toList, [nl, .text "later".toList, nl])],
-                      see := ["::M::S".toList] }
-    Renderable c = true ∧ parseComment (renderComment c (spaces 3)) = .ok c ∧
-      parseComment (renderComment c [' ', '\u3000', '\u0085']) = .ok c := by decide
-
 end Slicec.C16
 
 #print axioms Slicec.C16.sanitize_eq_spec
@@ -444,5 +502,9 @@ end Slicec.C16
 #print axioms Slicec.C16.link_binding_eq_C03
 #print axioms Slicec.C16.link_target_is_search_result
 #print axioms Slicec.C16.broken_link_is_warning
-#print axioms Slicec.C16.comment_roundtrip_partial
+#print axioms Slicec.C16.comment_roundtrip_readback
+#print axioms Slicec.C16.comment_roundtrip
+#print axioms Slicec.C16.comment_roundtrip_literal
+#print axioms Slicec.C16.rendered_tokens
+#print axioms Slicec.C16.comment_roundtrip_plain
 #print axioms Slicec.C16.siblings_preserved
